@@ -140,6 +140,30 @@ int main(void)
 			else if (s[q.len]) result("ok", (uint8_t *) "!unterminated", 13, "ptr");
 			else result("ok", (uint8_t *) s, q.len, "ptr");
 		}
+		else if (!strcmp(op, "load") && drv_nw == 4) {
+			/* q load <len> <hex>: the bytes are made available on a pipe (then end of file) and read by mpt_queue_load */
+			int fd[2];
+			if (drv_parse_nat(drv_w[2], &a) || drv_parse_data(drv_w[3], &dat, &dlen, &isnull) || isnull || dlen > 60000 || pipe(fd)) { puts("bad-op"); free(dat); continue; }
+			if (dlen && write(fd[1], dat, dlen) != (ssize_t) dlen) { puts("bad-op"); }
+			close(fd[1]);
+			free(dat);
+			ssize_t r = mpt_queue_load(&q, fd[0], a);
+			close(fd[0]);
+			if (r < 0) result("refused", 0, 0, r == -2 ? "BadValue" : "ERR?");
+			else { char v[48], i[32]; snprintf(v, sizeof(v), "ok n=%zd", r); snprintf(i, sizeof(i), "%zd", r); result(v, 0, 0, i); }
+		}
+		else if (!strcmp(op, "save") && drv_nw == 2) {
+			int fd[2];
+			if (q.len > 60000 || pipe(fd)) { puts("bad-op"); continue; }
+			ssize_t r = mpt_queue_save(&q, fd[1]);
+			close(fd[1]);
+			uint8_t *buf = malloc(65536);
+			ssize_t got = read(fd[0], buf, 65536);
+			close(fd[0]);
+			if (r < 0) result("refused", 0, 0, "ERR?");
+			else { char v[48], i[32]; snprintf(v, sizeof(v), "ok n=%zd", r); snprintf(i, sizeof(i), "%zd", r); result(v, buf, got > 0 ? (size_t) got : 0, i); }
+			free(buf);
+		}
 		else puts("bad-op");
 	}
 	free(q.base);
